@@ -992,7 +992,8 @@ def with_splits(run, facts=(), depth=0):
         c = e.cond
         # a case split is a statement about the whole evaluation: it may mention the bounds, the trace length and the evaluated position only.
         # A condition on the index of an enclosing reduction or loop differs from iteration to iteration -- not a case of the operator
-        bound_syms = [s_ for s_ in getattr(c, 'c', {}) if s_ not in ('a', 'b', 'n', 't')]
+        import re as _re
+        bound_syms = [s_ for s_ in getattr(c, 'c', {}) if s_ not in ('a', 'b', 'n', 't') and not _re.match(r'^p\d+$', s_)]     # p<k>: the position in a comprehension
         if bound_syms:
             raise Unknown('a case distinction on the loop index `%s` (condition %r) is not a case of the whole operator' % (bound_syms[0], c))
         return with_splits(run, list(facts) + [c], depth + 1) + with_splits(run, list(facts) + [-c - Aff.const(1)], depth + 1)
@@ -1152,9 +1153,18 @@ def _run_path(it, func_node, body, conds):
                     for kw in v.keywords:
                         if kw.arg == 'maxlen':
                             M = it.aff(kw.value, env)
+                    if M is None and len(v.args) == 2:
+                        M = it.aff(v.args[1], env)
                     if M is None:
                         raise Unknown('deque without maxlen')
-                    env[tg.id] = ('deque', M, None)
+                    fill = None
+                    if v.args:
+                        # deque([c] * M, maxlen=M): born prefilled
+                        pd = it.const_list(v.args[0], env)
+                        if pd is None or not (pd[2] == M):
+                            raise Unknown('ring buffer %s starts from `%s`' % (tg.id, ast.unparse(v.args[0])[:40]))
+                        fill = ('c', pd[1][1])
+                    env[tg.id] = ('deque', M, fill)
                     continue
                 if isinstance(v, ast.ListComp) and it.const_list(v, env) is None:
                     env[tg.id] = _comprehension(it, v, env)
@@ -1232,6 +1242,9 @@ def _run_path(it, func_node, body, conds):
                 it.require(n - hi, 'the result has one value per sample (not longer than the trace)', st.lineno)
                 seq = whole
                 sliced_whole = True
+            if seq is None and isinstance(v, ast.ListComp) and it.const_list(v, env) is None:
+                # return [E for j in range(..)]: the comprehension itself is the result
+                seq = _comprehension(it, v, env)
             if seq is None:
                 try:
                     seq = it.seq(v, env)
@@ -1308,6 +1321,26 @@ def _comprehension(it, v, env):
 
 def _outer_loop(it, st, env):
     """for i in range(len(X)) / descending: ring buffers receive x[i]; an output value is appended per iteration"""
+    if isinstance(st.iter, ast.Call) and isinstance(st.iter.func, ast.Name) and st.iter.func.id == 'zip' and isinstance(st.target, ast.Tuple) \
+            and len(st.iter.args) == len(st.target.elts) and all(isinstance(a, ast.Name) and isinstance(env.get(a.id), Seq) for a in st.iter.args) \
+            and all(isinstance(t_, ast.Name) for t_ in st.target.elts):
+        # for l, r in zip(A, B): the index loop over the (equally long) operands with the elements named
+        idx = '__zip_%s' % it.newvar('i')
+        binds = [ast.Assign(targets=[ast.Name(id=t_.id, ctx=ast.Store())], value=ast.Subscript(value=ast.Name(id=a.id, ctx=ast.Load()), slice=ast.Name(id=idx, ctx=ast.Load()), ctx=ast.Load()))
+                 for t_, a in zip(st.target.elts, st.iter.args)]
+
+        class _R(ast.NodeTransformer):
+            # buffer.append(l) -> buffer.append(A[idx]): the form the ring-buffer rule reads
+            def visit_Name(self, n_):
+                for t_, a in zip(st.target.elts, st.iter.args):
+                    if isinstance(n_.ctx, ast.Load) and n_.id == t_.id:
+                        return ast.copy_location(ast.Subscript(value=ast.Name(id=a.id, ctx=ast.Load()), slice=ast.Name(id=idx, ctx=ast.Load()), ctx=ast.Load()), n_)
+                return n_
+        import copy as _copy
+        body = [_R().visit(_copy.deepcopy(b)) for b in st.body]
+        rng_call = ast.Call(func=ast.Name(id='range', ctx=ast.Load()), args=[ast.Call(func=ast.Name(id='len', ctx=ast.Load()), args=[ast.Name(id=st.iter.args[0].id, ctx=ast.Load())], keywords=[])], keywords=[])
+        st = ast.copy_location(ast.For(target=ast.Name(id=idx, ctx=ast.Store()), iter=rng_call, body=body, orelse=[]), st)
+        ast.fix_missing_locations(st)
     rng = it.range_of(st.iter, env)
     elem_of = None
     if rng is None and isinstance(st.iter, ast.Name) and isinstance(env.get(st.iter.id), Seq) and isinstance(st.target, ast.Name):
